@@ -1648,6 +1648,10 @@ func dotGetSetHelper(env *Zlisp, name string, setVal *Sexp) (Sexp, error) {
 				if reflect.DeepEqual(fld, reflect.Value{}) {
 					return SexpNull, fmt.Errorf("no such field '%s'", fieldName)
 				}
+				if !fld.CanInterface() {
+					// an unexported field: Interface() would panic
+					return SexpNull, fmt.Errorf("field '%s' is not accessible", fieldName)
+				}
 				// ex:  We got back fld='20' of type int, kind=int
 				//P("We got back fld='%v' of type %v, kind=%v", fld, fld.Type(), fld.Type().Kind())
 				return GoToSexp(fld.Interface(), env)
